@@ -43,6 +43,12 @@ def handle : Handler := fun j => do
     match Lev.Summary.fromLists s t with
     | some x => return ok (jNats [x.lines, x.refLen, x.errors, x.subs, x.inss, x.dels])
     | none => return err "index-error"
+  | "aggconf" =>
+    -- the confusion table of ErrorsSummary.aggregate([from_lists(ref, hyp) ...]) as a bag of (hyp, ref) pairs
+    let refs ← getNatMat j "refs"
+    let hyps ← getNatMat j "hyps"
+    let tabs := (refs.zip hyps).map fun (r, h) => Lev.Summary.confusions r h
+    return ok (jList jPair (Lev.aggregateConfusions tabs))
   | _ => throw s!"C13: unknown op {op}"
 
 end Drv.C13
